@@ -1,45 +1,68 @@
 // List of property modules (kept separate so that a development build can include a subset).
+#[cfg(not(feature = "shuttle"))]
 prop_mod!(mpc, "mpc.rs");
+#[cfg(not(feature = "shuttle"))]
 prop_mod!(c01, "c01.rs");
-#[cfg(descriptive_gate)]
+#[cfg(all(descriptive_gate, not(feature = "shuttle")))]
 prop_mod!(c02, "c02.rs");
-#[cfg(descriptive_gate)]
+#[cfg(all(descriptive_gate, not(feature = "shuttle")))]
 prop_mod!(c03, "c03.rs");
-#[cfg(descriptive_gate)]
+#[cfg(all(descriptive_gate, not(feature = "shuttle")))]
 prop_mod!(c04, "c04.rs");
-#[cfg(descriptive_gate)]
+#[cfg(all(descriptive_gate, not(feature = "shuttle")))]
 prop_mod!(c05, "c05.rs");
-#[cfg(descriptive_gate)]
+#[cfg(all(descriptive_gate, not(feature = "shuttle")))]
 prop_mod!(c06, "c06.rs");
-#[cfg(descriptive_gate)]
+#[cfg(all(descriptive_gate, not(feature = "shuttle")))]
+prop_mod!(c07, "c07.rs");
+#[cfg(all(descriptive_gate, not(feature = "shuttle")))]
 prop_mod!(c08, "c08.rs");
-#[cfg(descriptive_gate)]
+#[cfg(all(descriptive_gate, not(feature = "shuttle")))]
+prop_mod!(c09, "c09.rs");
+#[cfg(all(descriptive_gate, not(feature = "shuttle")))]
+prop_mod!(c10, "c10.rs");
+#[cfg(all(descriptive_gate, not(feature = "shuttle")))]
 prop_mod!(c12, "c12.rs");
-#[cfg(descriptive_gate)]
+prop_mod!(c13, "c13.rs");
+prop_mod!(c15, "c15.rs");
+prop_mod!(c16, "c16.rs");
+prop_mod!(c17, "c17.rs");
+#[cfg(all(descriptive_gate, not(feature = "shuttle")))]
 prop_mod!(c18, "c18.rs");
-#[cfg(descriptive_gate)]
+#[cfg(all(descriptive_gate, not(feature = "shuttle")))]
 prop_mod!(c20, "c20.rs");
 
 fn dispatch(env: &common::Env) -> (&'static str, Vec<common::Sub>) {
     match env.prop.as_str() {
+        #[cfg(not(feature = "shuttle"))]
         "C01" => (c01::LEVEL, c01::subs(env)),
-        #[cfg(descriptive_gate)]
+        #[cfg(all(descriptive_gate, not(feature = "shuttle")))]
         "C02" => (c02::LEVEL, c02::subs(env)),
-        #[cfg(descriptive_gate)]
+        #[cfg(all(descriptive_gate, not(feature = "shuttle")))]
         "C03" => (c03::LEVEL, c03::subs(env)),
-        #[cfg(descriptive_gate)]
+        #[cfg(all(descriptive_gate, not(feature = "shuttle")))]
         "C04" => (c04::LEVEL, c04::subs(env)),
-        #[cfg(descriptive_gate)]
+        #[cfg(all(descriptive_gate, not(feature = "shuttle")))]
         "C05" => (c05::LEVEL, c05::subs(env)),
-        #[cfg(descriptive_gate)]
+        #[cfg(all(descriptive_gate, not(feature = "shuttle")))]
         "C06" => (c06::LEVEL, c06::subs(env)),
-        #[cfg(descriptive_gate)]
+        #[cfg(all(descriptive_gate, not(feature = "shuttle")))]
+        "C07" => (c07::LEVEL, c07::subs(env)),
+        #[cfg(all(descriptive_gate, not(feature = "shuttle")))]
         "C08" => (c08::LEVEL, c08::subs(env)),
-        #[cfg(descriptive_gate)]
+        #[cfg(all(descriptive_gate, not(feature = "shuttle")))]
+        "C09" => (c09::LEVEL, c09::subs(env)),
+        #[cfg(all(descriptive_gate, not(feature = "shuttle")))]
+        "C10" => (c10::LEVEL, c10::subs(env)),
+        #[cfg(all(descriptive_gate, not(feature = "shuttle")))]
         "C12" => (c12::LEVEL, c12::subs(env)),
-        #[cfg(descriptive_gate)]
+        "C13" => (c13::LEVEL, c13::subs(env)),
+        "C15" => (c15::LEVEL, c15::subs(env)),
+        "C16" => (c16::LEVEL, c16::subs(env)),
+        "C17" => (c17::LEVEL, c17::subs(env)),
+        #[cfg(all(descriptive_gate, not(feature = "shuttle")))]
         "C18" => (c18::LEVEL, c18::subs(env)),
-        #[cfg(descriptive_gate)]
+        #[cfg(all(descriptive_gate, not(feature = "shuttle")))]
         "C20" => (c20::LEVEL, c20::subs(env)),
         other => panic!("no harness for property {other} in this build"),
     }
